@@ -207,7 +207,14 @@ impl<S: Read + Write> Client<S> {
     /// ```
     pub fn connect(mut tpkt: tpkt::Client<S>, security_protocols: u32, check_certificate: bool, authentication_protocol: Option<&mut dyn AuthenticationProtocol>, restricted_admin_mode: bool, blank_creds: bool) -> RdpResult<Client<S>> {
         Self::write_connection_request(&mut tpkt, security_protocols, Some(if restricted_admin_mode { RequestMode::RestrictedAdminModeRequired as u8} else { 0 }))?;
-        match Self::read_connection_confirm(&mut tpkt)? {
+        let selected_protocol = Self::read_connection_confirm(&mut tpkt)?;
+        // The server must select one of the protocols offered in the request
+        // Never fall back to standard RDP security if an enhanced one was asked
+        let selected_mask = selected_protocol as u32;
+        if (selected_mask == 0 && security_protocols != 0) || (selected_mask & security_protocols) != selected_mask {
+            return Err(Error::RdpError(RdpError::new(RdpErrorKind::InvalidProtocol, "Server selected a security protocol that was not offered")))
+        }
+        match selected_protocol {
             Protocols::ProtocolHybrid => Ok(Client::new(tpkt.start_nla(check_certificate, authentication_protocol.unwrap(), restricted_admin_mode || blank_creds)?,Protocols::ProtocolHybrid)),
             Protocols::ProtocolSSL => Ok(Client::new(tpkt.start_ssl(check_certificate)?, Protocols::ProtocolSSL)),
             Protocols::ProtocolRDP => Ok(Client::new(tpkt, Protocols::ProtocolRDP)),
